@@ -451,6 +451,11 @@ def run_case(prop, seed, case):
             d = rng.choice(mids)
             if info['ports'].get(d):
                 do(['items', 'pins', str(rng.choice(info['ports'][d])[0]), '1'])
+        if prop == 'C08' and mids and rng.random() < 0.3:
+            # history before: a detached instance (kept by the user, e.g. as an alternative top) references a cell of the design
+            x_idx = len(w.objs)
+            do(['new', 'instance', netgen.tok_of_s('spare'), '0'])
+            do(['setref', str(x_idx), str(rng.choice(mids))])
         before = elab.elaborate(n)
         libs_before = dict((id(lib), (set(id(d) for d in lib.definitions), set(d.name for d in lib.definitions))) for lib in n.libraries)
         out = do(['uniquify', str(nl), FUEL])
